@@ -205,6 +205,12 @@ Definition ontid_getpk {A} (keys : list A) (index : Z) : gres A :=
   if len keys =? 0 then GErr ENoSuchKey else
   if ontid_getpk_bad index (len keys) then GErr ENoSuchKey else idx keys (u32 (index - 1)).
 
+(** governance updateConfig (repaired 0545dab5): test of K, then [L % K] (integer division by
+    zero is a run-time panic) *)
+Definition gov_l_mod_k (l k : Z) : gres Z :=
+  if gov_config_k_zero k then GErr EBadValue else
+  if k =? 0 then GPanic else GOk (l mod k).
+
 (** ontfs CheckPdpProve: length test, then proof[0:VersionLength] *)
 Definition ontfs_proof_version {A} (proof : list A) : gres (list A) :=
   if ontfs_proof_short (len proof) then GErr EShort else slice proof 0 PDP_VERSION_LENGTH.
